@@ -71,7 +71,7 @@ def lean_ty(t):
             return "(" + " → ".join([lean_ty(a) for a in t[1]] + [res]) + ")"
     return {"int": "Int", "bool": "Bool", "str": "Str", "bytes": "(List Nat)", "row": "Row", "frag": "Fragment", "gap": "Gap",
             "ovres": "OverlapResult", "scaffold": "Scaffold", "bytesio": "PyRt.BytesIO", "unit": "Unit", "sink_str": "Str",
-            "sink_bytes": "(List Nat)", "nat": "Nat", "trtable": "(Char → Char)", "fastainfo": "FastaInfo", "ovref": "Nat", "premise": "Premise", "store": "(List Res)", "scref": "Nat", "ffref": "Nat", "found": "Found", "namer": "PyRt.SrcNamer", "lref": "Nat", "junction": "Junction", "assembly": "Assembly"}[t]
+            "sink_bytes": "(List Nat)", "nat": "Nat", "trtable": "(Char → Char)", "fastainfo": "FastaInfo", "ovref": "Nat", "premise": "Premise", "store": "(List Res)", "scref": "Nat", "ffref": "Nat", "found": "Found", "namer": "PyRt.SrcNamer", "lref": "Nat", "junction": "Junction", "assembly": "Assembly", "path": "Str"}[t]
 
 
 # OBJECT TABLE: (type, python attribute) -> (result type, lean template, may raise)
@@ -400,6 +400,17 @@ class Kernel:
                 self.param(mg(n), self.spec["params"][n])
                 return mg(n), self.spec["params"][n]
             raise Unsupported(f"unknown name {n}")
+        if isinstance(e, ast.Attribute) and e.attr == "st_mtime" and isinstance(e.value, ast.Call) and isinstance(e.value.func, ast.Attribute) \
+                and e.value.func.attr == "stat" and not e.value.args:
+            # `p.stat().st_mtime`: an oracle of the kernel (the file system is outside the translated code); time stamps are integers here — only
+            # their order is used
+            pth, tp = self.expr(e.value.func.value, env, binds)
+            if tp != "path":
+                raise Unsupported("stat() of a non-path")
+            self.param("fs_mtime", ("fun", ["path"], "int", True))
+            nm = self.fresh()
+            binds.append((nm, f"(fs_mtime {pth})", "int"))
+            return nm, "int"
         if isinstance(e, ast.Attribute):
             # self.<declared attribute parameter>
             path = dotted(e)
@@ -1198,6 +1209,9 @@ class Kernel:
                 if td != tb[2]:
                     raise Unsupported("dict default type")
                 return f"((dGet? {b} {k}).getD {d})", tb[2]
+            if tb == "path" and m == "exists" and not e.args:
+                self.param("fs_exists", ("fun", ["path"], "bool", False))
+                return f"(fs_exists {b})", "bool"
             if tb == "bytes" and m == "split" and not e.args:
                 return f"(PyRt.bytesSplitWs {b})", L("bytes")
             if tb == "bytes" and m == "decode" and not e.args:
@@ -2317,7 +2331,7 @@ def translate(spec):
     rty = "Unit" if not parts else " × ".join(parts)
     sink_inits = [f"  let {mg(n)} : {lean_ty(t)} := {'0' if t == 'int' else '[]'}" for n, t in k.roots if t in ("sink_str", "sink_bytes") or n == "yielded_" or n == "heap_sc" or n in ("heap_lo", "added_lo") or n in spec.get("extra_roots", {}) or n in [p.replace(".", "_") for p in spec.get("init_empty", [])]]
     # parameter order = the order of the kernel's declaration (params, attr_params, opaque, then newOid): independent of the order of use
-    order = ["store", "nextOid", "heap_ff"] + [p.replace(".", "_") for p in spec.get("dict_roots", {})] + [mg(n) for n in spec.get("params", {})] + [p.replace(".", "_") for p in spec.get("attr_params", {})] \
+    order = ["fs_exists", "fs_mtime", "store", "nextOid", "heap_ff"] + [p.replace(".", "_") for p in spec.get("dict_roots", {})] + [mg(n) for n in spec.get("params", {})] + [p.replace(".", "_") for p in spec.get("attr_params", {})] \
         + [p.replace(".", "_") for p in spec.get("opaque", {})] + ["newOid"]
     k.params.sort(key=lambda nt: order.index(nt[0]) if nt[0] in order else len(order))
     params = ("(fuel : Nat) " if k.uses_fuel else "") + " ".join(f"({n} : {lean_ty(t)})" for n, t in k.params)
@@ -2501,6 +2515,11 @@ IMP_KERNELS_14 = [
          returns=ASM_DICT, locals={"ret_asm": ASM_DICT, "other_asm": L("assembly")}),
 ]
 
+IMP_KERNELS_15 = [
+    dict(file="fasta/index.py", qual="FastaIndex.check_for_index_files", lean="FastaIndex_check_for_index_files", returns="bool",
+         attr_params={"self.fasta_file": "path", "self.fai_file": "path", "self.agp_file": "path"}),
+]
+
 IMP_KERNELS = [
     dict(file="assembly/indexed_assembly.py", qual="IndexedAssembly.find_overlaps", lean="IndexedAssembly_find_overlaps",
          params={"bait": "frag"}, returns=O("ovres"), locals={"ovr": O("int")},
@@ -2532,7 +2551,7 @@ IMP_KERNELS = [
 def main():
     parts = ["/- GENERATED by harness/translate_imp.py from /repo/src — do not edit -/", "import AgpTpf.Model.PyRt", "import AgpTpf.Model.PyRtHeap", "import AgpTpf.Model.Lookup",
              "import AgpTpf.Model.Fasta", "import AgpTpf.Model.Text", "set_option linter.unusedVariables false", "namespace AgpTpf.Gen.Imp", "open AgpTpf", ""]
-    for spec in IMP_KERNELS + IMP_KERNELS_2 + IMP_KERNELS_3 + IMP_KERNELS_4 + IMP_KERNELS_5 + IMP_KERNELS_6 + IMP_KERNELS_7 + IMP_KERNELS_8 + IMP_KERNELS_9 + IMP_KERNELS_10 + IMP_KERNELS_11 + IMP_KERNELS_12 + IMP_KERNELS_13 + IMP_KERNELS_14:
+    for spec in IMP_KERNELS + IMP_KERNELS_2 + IMP_KERNELS_3 + IMP_KERNELS_4 + IMP_KERNELS_5 + IMP_KERNELS_6 + IMP_KERNELS_7 + IMP_KERNELS_8 + IMP_KERNELS_9 + IMP_KERNELS_10 + IMP_KERNELS_11 + IMP_KERNELS_12 + IMP_KERNELS_13 + IMP_KERNELS_14 + IMP_KERNELS_15:
         parts.append(translate(spec))
     parts.append("end AgpTpf.Gen.Imp\n")
     txt = "\n".join(parts)
